@@ -376,6 +376,27 @@ def native_references_multi():
         ws.close()
 
 
+def native_renamed_use():
+    from replay.harness import Workspace, session
+    files = {"m.f90": "module m\n  integer :: orig\nend module m\n",
+             "u.f90": "program u\n  use m, only: loc => orig\n  loc = 1\n  print *, loc\nend program u\n"}
+    ws = Workspace(files)
+    try:
+        msgs = [{"jsonrpc": "2.0", "method": "textDocument/didOpen", "params": {"textDocument": {"uri": ws.uri(n)}}} for n in files]
+        msgs.append({"jsonrpc": "2.0", "id": 1, "method": "textDocument/references",
+                     "params": {"textDocument": {"uri": ws.uri("m.f90")}, "position": {"line": 1, "character": 14},
+                                "context": {"includeDeclaration": True}}})
+        srv, out = session(ws, msgs)
+        got = sorted((x["uri"].rsplit("/", 1)[-1], x["range"]["start"]["line"], x["range"]["start"]["character"])
+                     for m in out if m.get("id") == 1 for x in (m.get("result") or []))
+        want = [("m.f90", 1, 13), ("u.f90", 1, 15), ("u.f90", 1, 22), ("u.f90", 2, 2), ("u.f90", 3, 11)]
+        if got != want:
+            return {"files": files, "entity": "m::orig", "expected": want, "returned": got}
+        return None
+    finally:
+        ws.close()
+
+
 def native_keyword_argument():
     from replay.harness import Workspace, session
     text = ("program p\n  integer :: x\n  x = 1\n  call foo(x=x)\ncontains\n  subroutine foo(x)\n    integer :: x\n    x = 2\n"
@@ -405,6 +426,10 @@ def extra(repo, reg, tier, seed):
                       detail="bounded: 4 files ('!' and quotes of the other kind inside character literals, trailing comments in "
                              "free and fixed form, a procedure declared in an interface block of a module and used in another "
                              "file): references from every occurrence vs the expected occurrence set"))
+    w = native_renamed_use()
+    items.append(Item("C06/session/native_references_renamed_use", "refuted" if w else "bounded-ok", "native-run(bounded)", 0.0,
+                      mode="bounded", witness=w, confirmed=True if w else None, func=f"{LS}.get_all_references",
+                      detail="bounded: one module entity used under a local alias (use m, only: loc => orig)"))
     w = native_keyword_argument()
     items.append(Item("C06/session/native_references_keyword_argument", "refuted" if w else "bounded-ok", "native-run(bounded)", 0.0,
                       mode="bounded", witness=w, confirmed=True if w else None, func=f"{LS}.get_all_references",
